@@ -114,7 +114,8 @@ pub enum Frame {
     StreamText(String),
     OtherText(String),
     FileInfo(u32),
-    Lifecycles(usize),
+    /// (id, nr_msgs) of every lifecycle in the update
+    Lifecycles(Vec<(u32, u32)>),
     DltMsgs(u32, Vec<RMsg>),
     EacInfo,
     PluginState(Vec<String>),
@@ -145,6 +146,8 @@ pub struct Client {
     pub closed: bool,
     /// largest nr_msgs seen in a FileInfo frame
     pub file_msgs_seen: u32,
+    /// latest message count per lifecycle id from the Lifecycles updates (the client's copy of the lifecycle table)
+    pub lifecycle_counts: std::collections::HashMap<u32, u32>,
 }
 
 impl Client {
@@ -155,7 +158,7 @@ impl Client {
                 let _ = stream.set_nodelay(true);
                 if let Ok((ws, _)) = tungstenite::client::client(format!("ws://127.0.0.1:{}/", port), stream) {
                     let _ = ws.get_ref().set_read_timeout(Some(Duration::from_millis(20)));
-                    return Some(Client { ws, closed: false, file_msgs_seen: 0 });
+                    return Some(Client { ws, closed: false, file_msgs_seen: 0, lifecycle_counts: Default::default() });
                 }
             }
             std::thread::sleep(Duration::from_millis(100));
@@ -182,6 +185,11 @@ impl Client {
                 let f = decode(&b);
                 if let Frame::FileInfo(k) = &f {
                     self.file_msgs_seen = self.file_msgs_seen.max(*k);
+                }
+                if let Frame::Lifecycles(l) = &f {
+                    for (id, n) in l {
+                        self.lifecycle_counts.insert(*id, *n);
+                    }
                 }
                 Some(f)
             }
@@ -236,7 +244,7 @@ pub fn decode(b: &[u8]) -> Frame {
     match bincode::borrow_decode_from_slice::<BinType, _>(b, bincode::config::legacy()) {
         Ok((t, _)) => match t {
             BinType::FileInfo(f) => Frame::FileInfo(f.nr_msgs),
-            BinType::Lifecycles(l) => Frame::Lifecycles(l.len()),
+            BinType::Lifecycles(l) => Frame::Lifecycles(l.iter().map(|x| (x.id, x.nr_msgs)).collect()),
             BinType::DltMsgs((id, v)) => Frame::DltMsgs(
                 id,
                 v.into_iter()
